@@ -151,7 +151,7 @@ def run_check(prop, tier='quick', seed=0, strict=False, procs=None):
             continue
         functions_under_contract.append({k: r.get(k) for k in (
             'function', 'file', 'line', 'sha256', 'dropped', 'cut', 'paths', 'completed_paths',
-            'exits', 'called', 'inlined', 'abstracted', 'abstracted_sha', 'wall_s', 'undecided')})
+            'exits', 'called', 'inlined', 'abstracted', 'abstracted_sha', 'opaque', 'wall_s', 'undecided')})
         # statements replaced by a ghost model are trusted to mean what the model says: if their text differs from
         # the text recorded with the baseline, that trust is gone and the affected obligations are not discharged
         base_abs = baseline.get(r['function'], {}).get('abstracted_sha') or {}
@@ -343,6 +343,8 @@ def run_check(prop, tier='quick', seed=0, strict=False, procs=None):
                            for fr in functions_under_contract for a in (fr.get('abstracted') or [])})
     cuts = sorted({'%s: analysed up to (not including) %r' % (fr['function'], fr['cut'])
                    for fr in functions_under_contract if fr.get('cut')})
+    cuts += sorted({'%s: %s is not modelled by the sidecar and read as an unconstrained value' % (fr['function'], a)
+                    for fr in functions_under_contract for a in (fr.get('opaque') or [])})
     samples = [o for o in ob_records[:3]]
     coverage = {
         'obligations': obligations, 'discharged': discharged,
